@@ -1964,9 +1964,16 @@ class Filter(Blockwise):
                     # sum is in the predicate of parent, then removing self would
                     # alter the condition of parent because the sum changes, this is
                     # only relevant in broadcasting cases
-                    return self.frame[
-                        self.predicate & parent.predicate.substitute(self, self.frame)
-                    ]
+                    predicate = parent.predicate.substitute(self, self.frame)
+                    # Other expressions filtered by the same predicate (e.g. the
+                    # frame behind ``x[mask].index``) have the rows of self, too
+                    for e in list(predicate.walk()):
+                        if (
+                            isinstance(e, Filter)
+                            and e.predicate._name == self.predicate._name
+                        ):
+                            predicate = predicate.substitute(e, e.frame)
+                    return self.frame[self.predicate & predicate]
         if isinstance(parent, Projection):
             if self.frame._filter_passthrough_available(self, dependents):
                 # We can't push Projections through filters if the preceding operation
